@@ -56,10 +56,10 @@ struct World {
     /// number of harness-chain blocks the tower has been given (delivered) so far
     delivered: usize,
     tower_id: Vec<u8>,
-}
-
-fn node_tables() -> (BTreeMap<u32, crate::simnode::SendR>, BTreeMap<u32, crate::simnode::GetR>) {
-    (BTreeMap::new(), BTreeMap::new())
+    /// transactions the tower has handed to the node so far (by number)
+    sent: BTreeSet<u32>,
+    /// what the node answers (default: takes everything, knows nothing)
+    tables: (BTreeMap<u32, crate::simnode::SendR>, BTreeMap<u32, crate::simnode::GetR>),
 }
 
 impl World {
@@ -68,11 +68,40 @@ impl World {
         let tower_id = sys.watcher.tower_id.to_vec();
         let live = Live::new(sys);
         let delivered = live.sys.chain.len();
-        World { live, cfg, boot_height: height, delivered, tower_id }
+        World { live, cfg, boot_height: height, delivered, tower_id, sent: BTreeSet::new(), tables: (BTreeMap::new(), BTreeMap::new()) }
     }
 
     fn oracle_tokens(&self) -> String {
-        String::new()
+        let mut toks: Vec<String> = self.tables.0.iter().map(|(n, r)| format!("s:t{}={}", n * 16, r.token())).collect();
+        toks.extend(self.tables.1.iter().map(|(n, r)| format!("g:t{}={}", n * 16, r.token())));
+        toks.sort();
+        toks.join(" ")
+    }
+
+    fn note_sends(&mut self, log: &[(String, bitcoin::Txid)]) {
+        for (m, t) in log {
+            if m == "send" {
+                if let Some(n) = self.live.sys.txnum.get(t) {
+                    self.sent.insert(*n);
+                }
+            }
+        }
+    }
+
+    /// while the tower is down: everything it had handed to the node gets mined in one more block; from then on
+    /// the node knows those transactions as confirmed and refuses them as "already in chain"
+    fn mine_sent_while_down(&mut self) -> bool {
+        let confirmed: BTreeSet<u32> = self.live.sys.chain.iter().flat_map(|b| b.3.iter().cloned()).collect();
+        let txs: Vec<u32> = self.sent.iter().filter(|n| !confirmed.contains(n)).cloned().collect();
+        if txs.is_empty() {
+            return false;
+        }
+        for n in &txs {
+            self.tables.0.insert(*n, crate::simnode::SendR::Rpc(-27));
+            self.tables.1.insert(*n, crate::simnode::GetR::Confirmed);
+        }
+        self.live.mine(txs);
+        true
     }
 
     /// executes one operation; `Err` = the process died in the middle of it
@@ -101,7 +130,12 @@ impl World {
     }
 
     fn request(&mut self, h: &HOp, rep: &mut Report, crashing: bool) -> Result<Outcome, ()> {
-        let (out, _) = self.live.sys.exec(h, rep);
+        let (out, rpcs) = self.live.sys.exec(h, rep);
+        for (m, n) in rpcs.iter() {
+            if m == "send" {
+                self.sent.insert(*n);
+            }
+        }
         if let Outcome::Panicked(_) = out {
             if crashing {
                 // the executor printed `abort`: the model prints `crashed`
@@ -134,6 +168,7 @@ impl World {
         let live = &mut self.live;
         let res = catch_unwind(AssertUnwindSafe(|| live.poll()));
         let log = self.live.sys.node.take_log();
+        self.note_sends(&log);
         let mut named: Vec<String> = log.iter().map(|(m, t)| format!("{m}:t{}", self.live.sys.txnum.get(t).cloned().unwrap_or(0) * 16)).collect();
         named.sort();
         match res {
@@ -151,7 +186,7 @@ impl World {
 
     /// the process is dead: reopen the database file and bootstrap as `main.rs` does
     fn restart(self, rep: &mut Report) -> Result<World, String> {
-        let World { live, cfg, boot_height, tower_id, .. } = self;
+        let World { live, cfg, boot_height, tower_id, sent, tables, .. } = self;
         let Live { mut sys, source, monitor } = live;
         std::mem::forget(monitor);
         let db_path = sys.db_path.clone();
@@ -200,8 +235,7 @@ impl World {
         if sys.watcher.tower_id.to_vec() != tower_id {
             rep.fail("C03", "tower_id_changed", "the tower id after restart differs from the one before the crash");
         }
-        let (s, g) = node_tables();
-        sys.set_tables(&s, &g);
+        sys.set_tables(&tables.0, &tables.1);
         // the block source knows the whole chain; the tower starts at its last known block
         let full_chain = chain;
         let mut live = Live::new(sys);
@@ -209,7 +243,7 @@ impl World {
             live.source.add_block(b, *h, i + 1 == full_chain.len());
         }
         live.sys.chain = full_chain;
-        let w = World { live, cfg, boot_height, delivered: upto, tower_id };
+        let w = World { live, cfg, boot_height, delivered: upto, tower_id, sent, tables };
         Ok(w)
     }
 }
@@ -361,9 +395,14 @@ pub fn run(seed: u64, thorough: bool, rep: &mut Report) {
         // 2b. crash at every point of every operation
         for (i, op) in ops.iter().enumerate() {
             let npts = points[i].len();
-            for j in 0..npts {
+            // a crash while blocks are being processed is explored twice: the node's chain as it was, and with
+            // what the tower had already handed to the node mined in one more block while the tower was down
+            for (j, mined) in (0..npts).flat_map(|j| [(j, false), (j, true)]) {
+                if mined && !matches!(op, XOp::Poll { .. }) {
+                    continue;
+                }
                 restarts += 1;
-                rep.begin_case(&format!("crash-{seed}-{c}-op{i}-pt{j}"));
+                rep.begin_case(&format!("crash-{seed}-{c}-op{i}-pt{j}{}", if mined { "-mined" } else { "" }));
                 let mut w = World::new(cfg, 100, &boot, rep);
                 let mut ok = true;
                 for prev in &ops[..i] {
@@ -391,6 +430,15 @@ pub fn run(seed: u64, thorough: bool, rep: &mut Report) {
                     rep.fail("C03", "crash_point_not_reached", &format!("operation {i} completed although point {j} was armed"));
                     std::mem::forget(w);
                     continue;
+                }
+                if mined {
+                    if !w.mine_sent_while_down() {
+                        // nothing had been handed to the node: same as the plain variant
+                        std::mem::forget(w);
+                        rep.end_case(None);
+                        continue;
+                    }
+                    rep.count("crash-variant:sent-transactions-mined-while-down");
                 }
                 // 3. restart
                 let mut w = match w.restart(rep) {
@@ -484,14 +532,31 @@ pub fn run(seed: u64, thorough: bool, rep: &mut Report) {
                     if matches!(op, XOp::Poll { .. }) && (ka != kb || aa != ab) {
                         let prev_poll = ops[..i].iter().rev().find(|o| matches!(o, XOp::Poll { .. }));
                         let partial = matches!(op, XOp::Poll { fail: Some(_), .. }) || matches!(prev_poll, Some(XOp::Poll { fail: Some(_), .. }));
-                        let what = if partial { "restart_after_partial_poll_skips_blocks" } else { "diverges_from_uninterrupted_run" };
-                        rep.fail("C03", what, &format!("after crash in op {i} ({op:?}) point {j} and catching up: trackers {ka:?} vs {kb:?}; appointments {aa:?} vs {ab:?}"));
+                        // the one divergence with a name of its own: the penalty had been handed to the node, the
+                        // process died before the tracker was stored, and the penalty was confirmed while the tower
+                        // was down; replaying the block the node answers "already in chain" and the tower records
+                        // nothing: the appointment stays watched, no tracker follows the penalty
+                        let confirmed: BTreeSet<u32> = w.live.sys.chain.iter().flat_map(|b| b.3.iter().cloned()).collect();
+                        let untracked_confirmed = mined && aa == ab && ka.is_subset(&kb) && kb.difference(&ka).all(|k| {
+                            match fin.appts.get(k).and_then(|a| w.live.sys.blobs.get(&a.0)) {
+                                Some(BlobSpec::Enc { penalty, .. }) => w.sent.contains(penalty) && confirmed.contains(penalty),
+                                _ => false,
+                            }
+                        });
+                        let what = if partial {
+                            "restart_after_partial_poll_skips_blocks"
+                        } else if untracked_confirmed {
+                            "penalty_sent_then_confirmed_while_down_is_not_tracked"
+                        } else {
+                            "diverges_from_uninterrupted_run"
+                        };
+                        rep.fail("C03", what, &format!("after crash in op {i} ({op:?}) point {j}{} and catching up: trackers {ka:?} vs {kb:?}; appointments {aa:?} vs {ab:?}", if mined { " (what the tower had sent was mined while it was down)" } else { "" }));
                     }
                     drop(w);
                 } else {
                     std::mem::forget(w);
                 }
-                rep.end_case(Some(format!("{c}:{i}:{j}")));
+                rep.end_case(Some(format!("{c}:{i}:{j}{}", if mined { "m" } else { "" })));
             }
         }
     }
